@@ -392,6 +392,7 @@ type runResult struct {
 	hungAt string
 	stream string // dry run: everything the server sent after the greeting
 	self   bool   // every call had returned before the caller closed the client
+	dead   string // "" | "err" | "ok" | "hang": how a command issued after the first failure ended
 }
 
 // respBounds returns the offsets of the reply stream that lie between two responses (0, and the offset after
@@ -586,6 +587,19 @@ func runCase(cs caseT) *runResult {
 			mu.Unlock()
 			idx += st.ncmds
 			if stop {
+				// the connection is gone (a call has reported it): one more command is issued - it has to fail, and
+				// at once (a command issued after the reader has exited must not wait for an answer that cannot come)
+				dn := make(chan error, 1)
+				go func() { dn <- cl.Noop().Wait() }()
+				dead := "hang"
+				select {
+				case err := <-dn:
+					dead = statusOf(err)
+				case <-time.After(3 * time.Second):
+				}
+				mu.Lock()
+				res.dead = dead
+				mu.Unlock()
 				return
 			}
 		}
@@ -724,7 +738,7 @@ func main() {
 				for _, ret := range r.rets {
 					enc.Encode(ret)
 				}
-				enc.Encode(map[string]interface{}{"ev": "End", "issued": r.issued, "closed": r.closed, "hung": r.hung, "self": r.self})
+				enc.Encode(map[string]interface{}{"ev": "End", "issued": r.issued, "closed": r.closed, "hung": r.hung, "self": r.self, "dead": r.dead})
 				emu.Unlock()
 				smu.Lock()
 				records += 2 + len(r.rets)
@@ -737,6 +751,9 @@ func main() {
 				smu.Unlock()
 				if cs.Fault == "stall" && cs.Mid && !r.self && !r.hung {
 					out.Mismatch(fmt.Sprintf("no-timeout/%s", cs.Script), fmt.Sprintf("the connection stalled inside a response (%d octets of the reply stream received) and the client's own read timeout never fired: its calls returned only when the caller closed the client (%+v issued=%d)", cs.Cut, cs, r.issued), cs)
+				}
+				if r.dead == "ok" || r.dead == "hang" {
+					out.Mismatch(fmt.Sprintf("after-failure/%s/%s", r.dead, cs.Script), fmt.Sprintf("a command issued after a call had reported the loss of the connection ended %q instead of failing at once (%+v)", r.dead, cs), cs)
 				}
 				if r.hung {
 					out.Mismatch(fmt.Sprintf("hang/%s/%s", cs.Script, cs.Fault), fmt.Sprintf("calls or Close did not return within 4 s: %+v (closed=%v issued=%d returned=%d)", cs, r.closed, r.issued, len(r.rets)), cs)
